@@ -240,7 +240,15 @@ async fn handle(
         Routes::BadRequest(msg) => response_400(msg),
     };
 
-    res.or_else(|e| response_500(e.to_string()))
+    // A frame the store refuses for what it is (unknown context, reserved topic, NUL in the
+    // topic, ...) is the client's mistake, not a server failure
+    res.or_else(|e| {
+        if e.downcast_ref::<crate::store::InvalidFrame>().is_some() {
+            response_400(e.to_string())
+        } else {
+            response_500(e.to_string())
+        }
+    })
 }
 
 async fn handle_stream_cat(
